@@ -139,6 +139,9 @@ void add_link(std::vector<Case> &cases) {
       cases.push_back({std::string("link-high/") + EA::name + "," + EB::name + "/o6x5/n" + std::to_string(n) + "/wa" + W(wa), [=] { link_case<EA, EB, 6, 5>(n, wa); }});
       cases.push_back({std::string("link-high/") + EA::name + "," + EB::name + "/o7x8/n" + std::to_string(n) + "/wa" + W(wa), [=] { link_case<EA, EB, 7, 8>(n, wa); }});
     }
+  // kernels with 24..27 coefficients of the product polynomial
+  cases.push_back({std::string("link-very-high/") + EA::name + "," + EB::name + "/o12x12/n2", [=] { link_case<EA, EB, 12, 12>(2, {0, 2}); }});
+  cases.push_back({std::string("link-very-high/") + EA::name + "," + EB::name + "/o13x11/n2", [=] { link_case<EA, EB, 13, 11>(2, {0, 2}); }});
 #else
   add_link_o<EA, EB, MAXO, MAXO>(cases);
 #endif
